@@ -581,6 +581,33 @@ func enumWrite(p *pool, names []string, maxFaults int, grid2 []int) {
 	w0.eval("W", names, nil, nil, false)
 	nWrite1.Add(1)
 	root := append([]int(nil), lens...)
+	// a stall of any length is transient: several zero-progress timeouts in a row before the
+	// connection takes bytes again (also after a first short write)
+	for j := range root {
+		for _, reps := range []int{3, 6} {
+			for _, first := range []int{0, 1} {
+				if first >= root[j] {
+					continue
+				}
+				pl := make(pconn.Plan, 0, j+reps+1)
+				for i := 0; i < j; i++ {
+					pl = append(pl, pconn.Act{K: 'a'})
+				}
+				if first > 0 {
+					pl = append(pl, pconn.Act{K: 's', N: first})
+				}
+				for i := 0; i < reps; i++ {
+					pl = append(pl, pconn.Act{K: 's', N: 0})
+				}
+				p.submit(func(w *worker) {
+					f, _ := w.evalWrite(names, stream, pl)
+					agg.add(f)
+					w.eval("W", names, pl, nil, true)
+					nWrite1.Add(1)
+				})
+			}
+		}
+	}
 	for j := range root {
 		j := j
 		for _, kind := range faultKinds {
